@@ -340,7 +340,7 @@ impl<'a, W: World> Explorer<'a, W> {
     }
 }
 
-fn ctx_of<W: World>(w: &W, concrete: bool, layer: usize, universe: u32) -> AlphaCtx {
+pub fn ctx_of<W: World>(w: &W, concrete: bool, layer: usize, universe: u32) -> AlphaCtx {
     AlphaCtx { classes: w.classes(), next_key: w.next_key(), len: w.len(), cap: w.capacity(), present: w.present(), concrete, layer, universe }
 }
 
